@@ -151,23 +151,24 @@ theorem init_under (W : World Unit) (pc : String) (pattrs : List (String × U)) 
     Options.RuntimeContext_init W (.obj "RuntimeContext" []) (.obj pc pattrs) cls .unprovided fe eh (.obj oc oattrs)
       = .ok (builtCtx (.obj pc pattrs) (pd + 1) rs cls fe eh (.obj oc oattrs),
           if exceeded md (pd + 1) then .raise (depthErr md (pd + 1) cls) else .ret .none) := by
-  unfold Options.RuntimeContext_init
-  cases md with
-  | none =>
-    obj_simp [getattr, setattr, lookupAttr, setAttrL, h1, h2, h3, hcls, OVal.isUnprovided, toList, iter, concat, add, intOf?,
-      encMaxDepth, exceeded, builtCtx]
-  | some k =>
-    by_cases h0 : k = 0
-    · subst h0
-      obj_simp [getattr, setattr, lookupAttr, setAttrL, h1, h2, h3, hcls, OVal.isUnprovided, toList, iter, concat, add,
-        intOf?, encMaxDepth, exceeded, builtCtx]
-    · by_cases hk : k < pd + 1
-      · have hk' : (k : Int) < (pd : Int) + 1 := by omega
+  gen_obligation "C18_gen_make_context (its lemma init_under): the regenerated code (Utv.Gen) is no longer equal to the hand model here" by
+    unfold Options.RuntimeContext_init
+    cases md with
+    | none =>
+      obj_simp [getattr, setattr, lookupAttr, setAttrL, h1, h2, h3, hcls, OVal.isUnprovided, toList, iter, concat, add, intOf?,
+        encMaxDepth, exceeded, builtCtx]
+    | some k =>
+      by_cases h0 : k = 0
+      · subst h0
         obj_simp [getattr, setattr, lookupAttr, setAttrL, h1, h2, h3, hcls, OVal.isUnprovided, toList, iter, concat, add,
-          intOf?, encMaxDepth, exceeded, builtCtx, depthErr, gt, lt, h0, hk, hk']
-      · have hk' : ¬ (k : Int) < (pd : Int) + 1 := by omega
-        obj_simp [getattr, setattr, lookupAttr, setAttrL, h1, h2, h3, hcls, OVal.isUnprovided, toList, iter, concat, add,
-          intOf?, encMaxDepth, exceeded, builtCtx, depthErr, gt, lt, h0, hk, hk']
+          intOf?, encMaxDepth, exceeded, builtCtx]
+      · by_cases hk : k < pd + 1
+        · have hk' : (k : Int) < (pd : Int) + 1 := by omega
+          obj_simp [getattr, setattr, lookupAttr, setAttrL, h1, h2, h3, hcls, OVal.isUnprovided, toList, iter, concat, add,
+            intOf?, encMaxDepth, exceeded, builtCtx, depthErr, gt, lt, h0, hk, hk']
+        · have hk' : ¬ (k : Int) < (pd : Int) + 1 := by omega
+          obj_simp [getattr, setattr, lookupAttr, setAttrL, h1, h2, h3, hcls, OVal.isUnprovided, toList, iter, concat, add,
+            intOf?, encMaxDepth, exceeded, builtCtx, depthErr, gt, lt, h0, hk, hk']
 
 /-- … and without a parent -/
 theorem init_top (W : World Unit) (cls fe eh : U) (oc : String) (oattrs : List (String × U)) (md : Option Nat)
@@ -175,20 +176,21 @@ theorem init_top (W : World Unit) (cls fe eh : U) (oc : String) (oattrs : List (
     Options.RuntimeContext_init W (.obj "RuntimeContext" []) .none cls .unprovided fe eh (.obj oc oattrs)
       = .ok (builtCtx .none 1 [] cls fe eh (.obj oc oattrs),
           if exceeded md 1 then .raise (depthErr md 1 cls) else .ret .none) := by
-  unfold Options.RuntimeContext_init
-  cases md with
-  | none =>
-    obj_simp [getattr, setattr, lookupAttr, setAttrL, h3, hcls, OVal.isUnprovided, concat, add, intOf?, encMaxDepth,
-      exceeded, builtCtx]
-  | some k =>
-    by_cases h0 : k = 0
-    · subst h0
+  gen_obligation "C18_gen_make_context (its lemma init_top): the regenerated code (Utv.Gen) is no longer equal to the hand model here" by
+    unfold Options.RuntimeContext_init
+    cases md with
+    | none =>
       obj_simp [getattr, setattr, lookupAttr, setAttrL, h3, hcls, OVal.isUnprovided, concat, add, intOf?, encMaxDepth,
         exceeded, builtCtx]
-    · have hk' : ¬ (k : Int) < 1 := by omega
-      have hk : ¬ k < 1 := by omega
-      obj_simp [getattr, setattr, lookupAttr, setAttrL, h3, hcls, OVal.isUnprovided, concat, add, intOf?, encMaxDepth,
-        exceeded, builtCtx, depthErr, gt, lt, h0, hk, hk']
+    | some k =>
+      by_cases h0 : k = 0
+      · subst h0
+        obj_simp [getattr, setattr, lookupAttr, setAttrL, h3, hcls, OVal.isUnprovided, concat, add, intOf?, encMaxDepth,
+          exceeded, builtCtx]
+      · have hk' : ¬ (k : Int) < 1 := by omega
+        have hk : ¬ k < 1 := by omega
+        obj_simp [getattr, setattr, lookupAttr, setAttrL, h3, hcls, OVal.isUnprovided, concat, add, intOf?, encMaxDepth,
+          exceeded, builtCtx, depthErr, gt, lt, h0, hk, hk']
 
 theorem ga_built_depth (parent : U) (d : Int) (rs : List U) (cls fe eh o : U) :
     getattr (builtCtx parent d rs cls fe eh o) "depth" = .ok (.int d) := rfl
